@@ -79,7 +79,7 @@ def h_concat(axis, k, md_cfg, via, shape=(2, 2), sparse_others=False):
         import sx.env as env
         biom = env.module('biom')
         arg = list(ops)
-        res, e = call(lambda: biom.concat(arg, axis=axis))
+        res, e = call(lambda: biom.concat(arg, axis) if flag('axis-positional') else biom.concat(arg, axis=axis))
         if len(arg) != k:
             fail('concat:argument-list-modified', 'wrapper', **sig)
     if e is not None:
